@@ -65,6 +65,8 @@ def proj(p, v):
 
 
 def show(v):
+    if isinstance(v, dict):
+        return "{" + ",".join(f"{k}:{v[k]}" for k in sorted(v)) + "}"
     if isinstance(v, tuple):
         if len(v) == 0:
             return "()"
@@ -119,6 +121,15 @@ class Ref:
             v = self.eval(lhs, store, depth + 1)
             body, r = f["templates"][as_int(v) % len(f["templates"])]
             return self.eval(self.instantiate(v, body, r, env), store, depth + 1)
+        if k == "permapi":
+            # incr_mapi_: the user's per-key computation applied to every entry of the current input map
+            _, inp, f = e
+            m = self.eval(inp, store, depth + 1)
+            out = {}
+            body, r = f["templates"][0]
+            for key in sorted(m):
+                out[key] = as_int(self.eval(self.instantiate(key, body, r, [[("const", m[key])]]), store, depth + 1))
+            return out
         if k == "expert":
             ex = self.experts[e[1]]
             if not ex["ok"]:
@@ -197,6 +208,13 @@ class Ref:
             H.append(("var", len(self.store) - 1))
         elif k == "const":
             H.append(("const", op[1]))
+        elif k == "varmap":
+            self.store.append(dict(op[1]))
+            H.append(("var", len(self.store) - 1))
+        elif k == "setmap":
+            self.store[op[1]] = dict(op[2])
+        elif k == "permapi":
+            H.append(("permapi", H[op[1]], self.capture(op[3])))
         elif k == "expert":
             self.experts[len(H)] = dict(mode=op[1], static=[], ctrl=[], ok=True)
             H.append(("expert", len(H)))
